@@ -168,6 +168,7 @@ type system struct {
 	sys     *steplib.System
 	prev    map[string]string // canonical text of every component
 	crashed map[int]bool
+	lastPC  map[int]string // pc of an archetype that has returned (failed assertion): it stays where it was
 }
 
 func procName(p int) string { return fmt.Sprintf("p%d", p) }
@@ -235,7 +236,7 @@ func build(k kase) (*system, error) {
 			{Param: "output", Var: "clientOutput", Depth: 0, Macro: steplib.Identity},
 		}, consts...)
 	}
-	s := &system{k: k, sys: sys, prev: map[string]string{}, crashed: map[int]bool{}}
+	s := &system{k: k, sys: sys, prev: map[string]string{}, crashed: map[int]bool{}, lastPC: map[int]string{}}
 	if err := sys.Start(); err != nil {
 		sys.Close()
 		return nil, err
@@ -263,7 +264,13 @@ func (s *system) components() map[string]interface{} {
 	out["cin"] = steplib.Enc(st.Get("clientInput"))
 	out["cout"] = steplib.Enc(st.Get("clientOutput"))
 	for p := 1; p <= s.k.NR+s.k.NC; p++ {
-		loc := map[string]interface{}{"pc": s.sys.PC(procName(p))}
+		pc := s.sys.PC(procName(p))
+		if pc == "" {
+			pc = s.lastPC[p]
+		} else {
+			s.lastPC[p] = pc
+		}
+		loc := map[string]interface{}{"pc": pc}
 		names := []string{"AReplica.req", "AReplica.respBody", "AReplica.respTyp", "AReplica.idx", "AReplica.replicaSet", "AReplica.shouldSync", "AReplica.lastPutBody"}
 		if !s.isReplica(p) {
 			names = []string{"AClient.msg", "AClient.replica", "AClient.idx"}
@@ -396,8 +403,16 @@ func (s *system) walk(w walkParams) []stepOut {
 	var out []stepOut
 	nn := s.k.NR + s.k.NC
 	blocked := map[int]string{}
+	speed := map[int]int{}
+	quiet := 0
 	for i := 0; i < w.N; i++ {
 		stateText := steplib.Text(s.sys.State.Snapshot())
+		if i%25 == 0 {
+			// processes run at different speeds for a while (starved replicas make failover syncs start from stale state)
+			for p := 1; p <= nn; p++ {
+				speed[p] = []int{8, 100, 100, 100, 300}[rng.Intn(5)]
+			}
+		}
 		var cands []int
 		var wts []int
 		total := 0
@@ -406,9 +421,9 @@ func (s *system) walk(w walkParams) []stepOut {
 			if pc == "" || pc == "Done" {
 				continue
 			}
-			wt := 100
+			wt := speed[p]
 			if blocked[p] == stateText {
-				wt = 5
+				wt = 2
 			}
 			cands = append(cands, p)
 			wts = append(wts, wt)
@@ -416,6 +431,20 @@ func (s *system) walk(w walkParams) []stepOut {
 		}
 		if len(cands) == 0 {
 			break
+		}
+		allBlocked := true
+		for _, c := range cands {
+			if blocked[c] != stateText {
+				allBlocked = false
+			}
+		}
+		if allBlocked {
+			quiet++
+			if quiet > 6 {
+				break // quiescent: every live process aborted in this state (a few more attempts try the other branches)
+			}
+		} else {
+			quiet = 0
 		}
 		r := rng.Intn(total)
 		p := cands[len(cands)-1]
@@ -502,10 +531,6 @@ func runCase(k kase) (res result) {
 	}
 	defer s.sys.Close()
 	res.Init = s.delta()
-	if k.Walk != nil {
-		res.Steps = s.walk(*k.Walk)
-		return
-	}
 	for _, st := range k.Steps {
 		if len(st) < 3 || st[0] < 1 || st[0] > k.NR+k.NC {
 			res.Err = fmt.Sprintf("bad step %v", st)
@@ -518,6 +543,10 @@ func runCase(k kase) (res result) {
 			continue
 		}
 		res.Steps = append(res.Steps, s.step(st[0], st[1], st[2]))
+	}
+	// an explicit prefix may be followed by a random walk
+	if k.Walk != nil {
+		res.Steps = append(res.Steps, s.walk(*k.Walk)...)
 	}
 	return
 }
